@@ -9,6 +9,7 @@ import (
 	"sort"
 	"sync"
 	"sync/atomic"
+	"testing"
 	"time"
 )
 
@@ -41,7 +42,8 @@ type Violation struct {
 // Sim is the state of one simulated run. All methods are safe to call from
 // any goroutine of the bubble.
 type Sim struct {
-	T    *Tape // ONLY the driver goroutine may draw from it
+	T    *Tape      // ONLY the driver goroutine may draw from it
+	TB   testing.TB // the bubble's T (TempDir, Cleanup)
 	Seed uint64
 
 	mu       sync.Mutex
